@@ -69,6 +69,41 @@ func runC01case(base string, c c01case, timeout time.Duration, env *c08env) c01o
 		rounds = 2
 	}
 	for round := 0; round < rounds; round++ {
+		if round == 1 && c.seed%3 != 0 {
+			// the hosted tree changed between the two fetches: some files are now shorter
+			// (across chunks, to an exact multiple, to nothing), longer, or have other bytes;
+			// the output directory still holds the first version
+			for i := range tree.files {
+				f := &tree.files[i]
+				var nd []byte
+				switch r.Intn(6) {
+				case 0:
+					continue
+				case 1:
+					nd = append([]byte{}, f.data[:r.Intn(len(f.data)+1)]...)
+				case 2:
+					k := len(f.data) / c.cs
+					if k > 0 {
+						k = r.Intn(k + 1)
+					}
+					nd = append([]byte{}, f.data[:k*c.cs]...)
+				case 3:
+					nd = nil
+				case 4:
+					nd = append(append([]byte{}, f.data...), r.Bytes(1+r.Intn(2*c.cs))...)
+				default:
+					nd = r.Bytes(len(f.data))
+				}
+				f.data = nd
+				fp := filepath.Join(src, filepath.FromSlash(f.rel))
+				os.WriteFile(fp, nd, 0644)
+				// an edit is visible in the modification time (the manifest identifies a file
+				// by path, size and mtime in seconds; a same-size edit within the same second
+				// is outside what the tool can notice)
+				when := time.Now().Add(time.Duration(3+i) * time.Second)
+				os.Chtimes(fp, when, when)
+			}
+		}
 		if round == 1 && c.seed%2 == 0 {
 			// the second fetch may come with another chunk size (the sender chooses it per run):
 			// resume metadata recorded for the first geometry must not be applied to the second
